@@ -254,7 +254,7 @@ def run_one(a, m):
     srcdir = os.path.join(d, "src")
     if os.path.exists(srcdir):
         shutil.rmtree(srcdir)
-    shutil.copytree(os.path.join(REPO, "src"), srcdir, ignore=shutil.ignore_patterns("__pycache__", "*.egg-info"))
+    shutil.copytree(os.path.join(a.dir, "_base", "src"), srcdir, ignore=shutil.ignore_patterns("__pycache__", "*.egg-info"))
     shutil.copy(os.path.join(d, "mutated.py"), os.path.join(d, m["file"]))
     res = []
     env = dict(os.environ, PYTHONPATH=srcdir, VERIF_REPO=d)
@@ -277,6 +277,11 @@ def run_one(a, m):
 
 def run(a):
     muts = [json.loads(l) for l in open(os.path.join(a.dir, "mutants.jsonl"))]
+    base = os.path.join(a.dir, "_base")
+    if not os.path.exists(base):
+        # pristine snapshot of HEAD (so that /repo may be patched temporarily by other tools while the sweep runs)
+        os.makedirs(base)
+        subprocess.run(f"git -C {REPO} archive HEAD src | tar -x -C {base}", shell=True, check=True)
     done = set()
     rp = os.path.join(a.dir, "results.jsonl")
     if os.path.exists(rp):
